@@ -253,17 +253,17 @@ func NewPathBinKey(key []byte) Path {
 func GetDescByPath(desc *thrift.TypeDescriptor, path ...Path) (ret *thrift.TypeDescriptor, err error) {
 	ret = desc
 	for _, p := range path {
-		switch desc.Type() {
+		switch ret.Type() {
 		case thrift.STRUCT:
 			switch p.Type() {
 			case PathFieldId:
-				f := desc.Struct().FieldById(thrift.FieldID(p.l))
+				f := ret.Struct().FieldById(thrift.FieldID(p.l))
 				if f == nil {
 					return nil, errNode(meta.ErrUnknownField, fmt.Sprintf("unknown field %d", p.l), nil)
 				}
 				ret = f.Type()
 			case PathFieldName:
-				f := desc.Struct().FieldByKey(p.str())
+				f := ret.Struct().FieldByKey(p.str())
 				if f == nil {
 					return nil, errNode(meta.ErrUnknownField, fmt.Sprintf("unknown field %s", p.str()), nil)
 				}
@@ -272,7 +272,7 @@ func GetDescByPath(desc *thrift.TypeDescriptor, path ...Path) (ret *thrift.TypeD
 				return nil, errNode(meta.ErrInvalidParam, "", nil)
 			}
 		case thrift.LIST, thrift.SET, thrift.MAP:
-			ret = desc.Elem()
+			ret = ret.Elem()
 		default:
 			return nil, errNode(meta.ErrUnsupportedType, "", err)
 		}
